@@ -44,8 +44,9 @@ Proof.
                   (depth (T (mkcf md sf al) [mksrec S_finish S_finish v None] (mkgb p d s u q) 0 off) =? 0) && sf && negb al) = false).
     { unfold mode_ok in Hm. destruct sf, al; cbn in Hm; try discriminate; rewrite ?andb_false_r; reflexivity. }
     rewrite E2.
-    assert (E3 : ((j =? 0) && negb (tstate_eqb (st (T (mkcf md sf al) [mksrec S_finish S_finish v None] (mkgb p d s u q) 0 off)) S_finish) &&
-                  negb (tstate_eqb (sv (T (mkcf md sf al) [mksrec S_finish S_finish v None] (mkgb p d s u q) 0 off)) S_finish)) = false).
+    assert (E3 : ((j =? 0) && (negb (depth (T (mkcf md sf al) [mksrec S_finish S_finish v None] (mkgb p d s u q) 0 off) =? 0) ||
+                  (negb (tstate_eqb (st (T (mkcf md sf al) [mksrec S_finish S_finish v None] (mkgb p d s u q) 0 off)) S_finish) &&
+                   negb (tstate_eqb (sv (T (mkcf md sf al) [mksrec S_finish S_finish v None] (mkgb p d s u q) 0 off)) S_finish)))) = false).
     { cbn. rewrite !andb_false_r. reflexivity. }
     rewrite E3. reflexivity.
   - reflexivity.
